@@ -215,18 +215,18 @@ def routed_fn(name, d, info):
                Route::Vacant => true } // [C14.setattr.ids_in]''' % dict(ino=ino))
     conv = d.get('conv')
     if conv == 'entry':
-        bres = 'self.conv_entry(i, self.be(i).res_%s(), res)' % name
+        bres = 'self.conv_entry(i, self.be(i).%s(), res)' % mi['resfn']
     elif conv == 'attr':
-        bres = 'self.conv_attr(rt.id(), self.be(i).res_%s(), res)' % name
+        bres = 'self.conv_attr(rt.id(), self.be(i).%s(), res)' % mi['resfn']
     elif conv == 'create':
         bres = '''(match self.be(i).res_create() {
                    Ok(t) => if t.0.inode > 0xff_ffff_ffff_ffffu64 { res is Err } else { res == Ok::<(Entry, Option<u64>, OpenOptions, Option<u32>), Error>((self.entry_out(i, t.0.inode, t.0), t.1, t.2, t.3)) },
                    Err(x) => res == Err::<(Entry, Option<u64>, OpenOptions, Option<u32>), Error>(x) })'''
     else:
         if mi['ret'] and 'IoctlData' in mi['ret']:
-            bres = 'ioctl_res(res) == self.be(i).res_%s()' % name
+            bres = 'ioctl_res(res) == self.be(i).%s()' % mi['resfn']
         else:
-            bres = 'res == self.be(i).res_%s()' % name
+            bres = 'res == self.be(i).%s()' % mi['resfn']
     ens = []
     if d.get('names'):
         ens.append('!(%s) ==> is_einval(res) // [C06.vfs.%s.gate]' % (gate, name))
@@ -234,10 +234,10 @@ def routed_fn(name, d, info):
         ens.append('(%s) && !(%s) ==> is_enosys(res) // [C12.vfs.%s.%s]' % (gate, gate_opt, name, d['opt']))
     ens.append('''({ let rt = self.route(%(ino)s);
            (%(gate)s) && (%(gopt)s) ==> match rt {
-               Route::Pseudo(n) => res == self.root.res_%(op)s(),
+               Route::Pseudo(n) => res == self.root.%(rf)s(),
                Route::Backend(i, n) => %(bres)s,
                Route::Vacant => is_enoent(res) } }) // [C07.%(op)s.result]%(c14)s''' % dict(
-        ino=ino, gate=gate, gopt=gate_opt, op=name, bres=bres, c14=('[C14.%s.ids]' % name) if conv else ''))
+        ino=ino, gate=gate, gopt=gate_opt, op=name, bres=bres, rf=mi['resfn'], c14=('[C14.%s.ids]' % name) if conv else ''))
     sig_subst = [('Self::Inode', 'VfsInode')] if False else []
     return dict(requires=req, ensures=ens)
 
@@ -360,8 +360,8 @@ impl vstd::std_specs::convert::FromSpecImpl<u64> for VfsInode {
                          splices=[('^', 'after', 'proof { lemma_rt(self.route(%s).idx(), self.route(%s).ino()); }' % (d['ino'], d['ino']))] + SPLICES.get(name, [])))
     def two(op, a, b, args_p, args_b, conv=None):
         gate = 'safe_name(%s@)' % ('oldname' if op == 'rename' else 'newname') + (' && safe_name(newname@)' if op == 'rename' else '')
-        okres = 'res == self.root.res_%s()' % op
-        bres = ('self.conv_entry(j, self.be(i).res_%s(), res)' % op) if conv else ('res == self.be(i).res_%s()' % op)
+        okres = 'res == self.root.%s()' % ('res_unit' if op == 'rename' else 'res_entry')
+        bres = 'self.conv_entry(j, self.be(i).res_entry(), res)' if conv else 'res == self.be(i).res_unit()'
         return Fn(SYNC, SC, op, ret_name='res', sig_subst=SIGSUB, lenient_sig=True, props=['C07'], canary=True,
                   requires=['self.wf()', '(%s) ==> self.root.touch_ok() && forall|i: u8| #[trigger] self.be(i).touch_ok() // [C06.vfs.%s.before]' % (gate, op),
                             '''match (self.route(%s), self.route(%s)) {
@@ -386,17 +386,17 @@ impl vstd::std_specs::convert::FromSpecImpl<u64> for VfsInode {
                 Route::Vacant => true } // [C07.lookup.route]'''],
                      ensures=['has_slash(name@) ==> is_einval(res) // [C06.vfs.lookup.gate]',
                               '''!has_slash(name@) ==> match self.route(parent) {
-                Route::Pseudo(n) => self.pseudo_lookup_res(self.root.res_lookup(), 0u8, res, false),
-                Route::Backend(i, n) => self.conv_entry(i, self.be(i).res_lookup(), res),
+                Route::Pseudo(n) => self.pseudo_lookup_res(self.root.res_entry(), 0u8, res, false),
+                Route::Backend(i, n) => self.conv_entry(i, self.be(i).res_entry(), res),
                 Route::Vacant => is_enoent(res) } // [C07.lookup.result]''',
                               '''!has_slash(name@) ==> match self.route(parent) {
-                Route::Pseudo(n) => self.pseudo_lookup_res(self.root.res_lookup(), 0u8, res, true),
+                Route::Pseudo(n) => self.pseudo_lookup_res(self.root.res_entry(), 0u8, res, true),
                 _ => true } // [C14.lookup.ids]'''],
                      splices=[('^', 'after', 'proof { lemma_rt(self.route(parent).idx(), self.route(parent).ino()); lemma_contains_push(name@, 47u8, 0u8); }')]))
     routed.append(Fn(MOD, 'impl Vfs', 'lookup_pseudo', ret_name='res', props=['C07', 'C14'], canary=True,
                      requires=['self.wf()', 'self.mount_wf()', 'fs.touch_ok()', 'fs.allowed_lookup(*ctx, idata.sino(), name@)'],
-                     ensures=['self.pseudo_lookup_res(fs.res_lookup(), idata.sidx(), res, false) // [C07.lookup_pseudo.cross]',
-                              'self.pseudo_lookup_res(fs.res_lookup(), idata.sidx(), res, true) // [C14.lookup_pseudo.ids]']))
+                     ensures=['self.pseudo_lookup_res(fs.res_entry(), idata.sidx(), res, false) // [C07.lookup_pseudo.cross]',
+                              'self.pseudo_lookup_res(fs.res_entry(), idata.sidx(), res, true) // [C14.lookup_pseudo.ids]']))
     routed.append(Fn(SYNC, SC, 'forget', sig_subst=SIGSUB, lenient_sig=True, props=['C07'],
                      requires=['self.wf()', 'self.root.touch_ok() && forall|i: u8| #[trigger] self.be(i).touch_ok()', '''match self.route(inode) {
                 Route::Pseudo(n) => self.root.allowed_forget(*ctx, n, count),
